@@ -1,8 +1,10 @@
 // C12/C20 harness header: every record kind of the database (functions, wrappers, types, manifests,
 // elements, make_seqs), enums with comments, arrays, typedefs, nested types, inheritance, properties.
+__begin_publish
 #define SHAPES_VERSION 42
 #define SHAPES_NAME "a b \" c"
 #define SHAPES_NEG (-7)
+__end_publish
 
 /**
  * A base class.  The comment has "quotes", a 'tick',
@@ -17,11 +19,11 @@ __published:
   virtual int kind() const;
   int get_num_items() const;
   int get_item(int n) const;
-  MAKE_SEQ(get_items, get_num_items, get_item);
+  __make_seq(get_items, get_num_items, get_item);
   void set_value(int v);
   int get_value() const;
-  MAKE_PROPERTY(value, get_value, set_value);
-  MAKE_SEQ_PROPERTY(items, get_num_items, get_item);
+  __make_property(value, get_value, set_value);
+  __make_seq_property(items, get_num_items, get_item);
 public:
   int hidden;
 };
@@ -54,8 +56,10 @@ __published:
   };
 };
 
+__begin_publish
 struct Forward;
 Forward *get_forward();
 int global_counter;
 const double global_ratio = 0.25;
 int free_function(Derived &d, const Base *b, unsigned long long big, short s, signed char c);
+__end_publish
